@@ -16,6 +16,7 @@
 //   vibrato   CC1 / aftertouch vibrato while audio is generated: |p_observed - p_base| <= 1 semitone
 //   scope     a bend re-pitches, inside the call, every key-down note of that MIDI channel and no note of another one
 #include "vlib.hpp"
+#include "vsmf.hpp"
 
 static const char *harness_name() { return "c10_pitch"; }
 static void harness_init() {}
@@ -894,9 +895,99 @@ static void stage_scope(Case &c)
     (void)bends;
 }
 
+// ------------------------------------------------------------------------------------------------------------
+// stage: seqbend -- pitch-bend events played by the sequencer from a file whose tracks name two MIDI devices (FF 09): the bend
+// re-pitches the key-down note of ITS channel on ITS device, at once, and nothing else
+// ------------------------------------------------------------------------------------------------------------
+static void stage_seqbend(Case &c)
+{
+    Rng &rng = c.rng;
+    int fam = (int)(c.k & 1);
+    const long rate = 8000;
+    Rig r;
+    if(!r.open(c, fam, 2, rate, true, fam ? 5 : 0)) return;
+    Judge J(c, r, "melodic");
+    uint8_t dtmul[4]; gen_dtmul(rng, dtmul);
+    int note_off = rng.pick((const int[]){0, 0, 12, -12});
+    OPN2_Instrument in; fill_ins(in, note_off, 0, dtmul, (unsigned)rng.below(64));
+    if(!put_ins(c, r, false, 0, in)) return;                 // program 0: what every channel plays after a load
+    int ch = (int)rng.below(16); if(ch == 9) ch = 3;
+    int keyA = rng.range(40, 52), keyB = rng.range(64, 76);
+    int bendB = rng.chance(0.3) ? 16383 : (int)rng.below(16384), bendA = rng.chance(0.5) ? -1 : (int)rng.below(16384);
+    bool names_in_own_track = rng.chance(0.5);
+    Song sg; sg.format = 1; sg.division = 480; sg.running_status = rng.chance(0.5); sg.tracks.resize(3);
+    int serial = 0;
+    auto push = [&](int t, SEv e) { e.serial = serial++; sg.tracks[(size_t)t].ev.push_back(e); };
+    push(0, mk_tempo(0, 500000)); push(0, mk_meta(1920, 0x2F, std::vector<uint8_t>()));
+    push(1, mk_meta_text(0, 0x09, "Port A")); push(1, mk_chan(0, 0x90 | ch, keyA, 100));
+    if(bendA >= 0) push(1, mk_chan(720, 0xE0 | ch, bendA & 127, bendA >> 7));
+    push(1, mk_meta(1920, 0x2F, std::vector<uint8_t>()));
+    push(2, mk_meta_text(0, 0x09, "Port B")); push(2, mk_chan(0, 0x90 | ch, keyB, 100));
+    push(2, mk_chan(480, 0xE0 | ch, bendB & 127, bendB >> 7));
+    push(2, mk_meta(1920, 0x2F, std::vector<uint8_t>()));
+    (void)names_in_own_track;
+    std::vector<uint8_t> file = serialize_song(sg);
+    int rc = 0;
+    { ExactBuf eb(file); API("opn2_openData", rc = opn2_openData(r.dev, eb.p, (unsigned long)eb.n)); }
+    if(rc != 0) { c.violation("oracle:C10:seqbend:wellformed-file-rejected", opn2_errorInfo(r.dev)); return; }
+    std::string ctx = vfmt("[seqbend %s ch=%d device A key %d, device B key %d, note_offset=%d, bend on B %d at 0.5 s, bend on A %d at 0.75 s]", J.fam, ch, keyA, keyB, note_off, bendB, bendA);
+    // time 0: both notes key on
+    r.begin(); double nd = 0; API("opn2_tickEvents", nd = opn2_tickEvents(r.dev, 0.0, 1e-6)); r.end();
+    int cA = -1, cB = -1;
+    for(size_t i = 0; i < r.groups.size(); i++)
+    {
+        double hz = group_hz(r.groups[i].block(), r.groups[i].fnum(), r.clock);
+        if(fabs(12.0 * log2(hz / nominal_hz(keyA + note_off))) < 0.5) cA = r.groups[i].ch;
+        if(fabs(12.0 * log2(hz / nominal_hz(keyB + note_off))) < 0.5) cB = r.groups[i].ch;
+    }
+    if(cA < 0 || cB < 0 || cA == cB) { c.inconclusive = true; count("seqbend_notes_not_identified"); return; }
+    // 0.5 s: the bend of device B's channel
+    r.begin(); API("opn2_tickEvents", nd = opn2_tickEvents(r.dev, nd, 1e-6)); r.end();
+    double pos = 0; API("opn2_positionTell", pos = opn2_positionTell(r.dev));
+    if(fabs(pos - 0.5) > 1e-6) { c.inconclusive = true; count("seqbend_unexpected_position"); return; }
+    double bpB = ((double)bendB - 8192.0) / 8192.0 * 2.0;
+    if(bendB != 8192)
+    {
+        if(!r.freq_written.count(cB))
+            c.violation("oracle:C10:bend-did-not-repitch-key-down-note:file-second-device", ctx + vfmt(": the bend of device B's channel wrote no frequency to chip channel %d of its key-down note", cB));
+        else
+        {
+            const ChanDec &d = r.dec[(size_t)cB];
+            Group g; g.ch = cB; g.a4 = d.a4; g.a0 = d.a0; memcpy(g.dtmul, d.dtmul, 4); g.freq_in_call = true;
+            J.tune(g, keyB + note_off + bpB, dtmul, ctx + " device B note after its bend", false);
+        }
+        if(r.freq_written.count(cA))
+            c.violation(vfmt("oracle:C10:bend-wrote-frequency-elsewhere:%s:melodic", J.fam), ctx + vfmt(": the bend of device B's channel re-pitched chip channel %d, the note of the same channel number on device A", cA));
+    }
+    // 0.75 s: the bend of device A's channel (if any)
+    if(bendA >= 0)
+    {
+        r.begin(); API("opn2_tickEvents", nd = opn2_tickEvents(r.dev, nd, 1e-6)); r.end();
+        double bpA = ((double)bendA - 8192.0) / 8192.0 * 2.0;
+        if(bendA != 8192)
+        {
+            if(!r.freq_written.count(cA))
+                c.violation("oracle:C10:bend-did-not-repitch-key-down-note:file-first-device", ctx + vfmt(": the bend of device A's channel wrote no frequency to chip channel %d", cA));
+            else
+            {
+                const ChanDec &d = r.dec[(size_t)cA];
+                Group g; g.ch = cA; g.a4 = d.a4; g.a0 = d.a0; memcpy(g.dtmul, d.dtmul, 4); g.freq_in_call = true;
+                J.tune(g, keyA + note_off + bpA, dtmul, ctx + " device A note after its bend", false);
+            }
+            if(r.freq_written.count(cB))
+                c.violation(vfmt("oracle:C10:bend-wrote-frequency-elsewhere:%s:melodic", J.fam), ctx + vfmt(": the bend of device A's channel re-pitched chip channel %d of device B's note", cB));
+        }
+    }
+    c.nontrivial = true;
+    cover(vfmt("seqbend|%s|ch%d|bendA%d", J.fam, ch, bendA >= 0 ? 1 : 0));
+    c.sig = vfmt("seqbend|%s", J.fam);
+    c.sample(std::string("{\"stage\":\"seqbend\",\"context\":") + jstr(ctx) + "}");
+}
+
 static void run_case(Case &c)
 {
     const std::string &st = g_w.stage;
+    if(st == "seqbend") { stage_seqbend(c); return; }
     if(st == "fullbend") stage_fullbend(c);
     else if(st == "lsb") stage_lsb(c);
     else if(st == "porta") stage_porta(c);
